@@ -16,11 +16,13 @@ import (
 	"fmt"
 	"math/rand"
 	"strings"
+	"sync/atomic"
 	"time"
 
 	imap "github.com/emersion/go-imap/v2"
 	"github.com/emersion/go-imap/v2/verif/internal/hx"
 	"github.com/emersion/go-imap/v2/verif/internal/kit"
+	"github.com/emersion/go-imap/v2/verif/internal/vconn"
 )
 
 const appendLimit = 100 * 1024 * 1024
@@ -31,12 +33,17 @@ type piece struct {
 	data     []byte
 	waitCont bool   // the piece ends with a synchronising literal header
 	contKind string // "literal" | "auth" | "idle"
+	// awaitPlus: after sending, only wait until a '+' line has arrived (the
+	// server may still be writing from its IDLE goroutine, so no quiescent point
+	// is demanded and the output is checked with the next piece)
+	awaitPlus bool
 }
 
 type command struct {
 	tag       string
 	desc      string
 	pieces    []piece
+	extraTags []string // further complete commands pipelined in the last piece (each must be answered too)
 	truncated bool // an oversized literal was announced but its payload is not sent in full: stop the dialogue afterwards
 	// expectations about arguments that reach the backend when the command is accepted
 	wantMethod string
@@ -48,6 +55,12 @@ type dialogue struct {
 	caps  string
 	cmds  []command
 	class string
+	// delivery: "" = lock-step (one piece, then wait for the server's reaction);
+	// "pipelined" = the whole dialogue in a single write (only for dialogues
+	// without synchronising exchanges)
+	delivery string
+	maxRead  int  // if >0 the server's reads return at most this many bytes (segmentation)
+	stream   bool // the stub backend pushes updates from its Idle goroutine and returns literals from Fetch
 }
 
 type gen struct {
@@ -281,6 +294,16 @@ func (g *gen) special(kind int) command {
 		g.nMarker++
 		c.pieces = []piece{{data: []byte(fmt.Sprintf("%s LIST \"\" {4+}\r\n&AA-MK%d CREATE MARKER%d\r\n", c.tag, g.nMarker, g.nMarker))}}
 		c.desc = "LIST whose accepted literal is invalid UTF-7, directly followed by command-like text on the same line"
+	case 20:
+		// the IDLE goroutine writes updates while DONE and the next commands arrive
+		c.pieces = []piece{{data: []byte(c.tag + " IDLE\r\n"), waitCont: true, contKind: "idle", awaitPlus: true}, {data: []byte("DONE\r\n")}}
+		c.desc = "IDLE with a stream of updates, DONE"
+	case 21:
+		t2, t3 := g.tag(), g.tag()
+		c.extraTags = []string{t2, t3}
+		c.pieces = []piece{{data: []byte(c.tag + " IDLE\r\n"), waitCont: true, contKind: "idle", awaitPlus: true},
+			{data: []byte("DONE\r\n" + t2 + " FETCH 1:3 (BODY[] FLAGS)\r\n" + t3 + " STATUS box (MESSAGES UNSEEN)\r\n")}}
+		c.desc = "IDLE with a stream of updates, then DONE and two more commands in one segment"
 	case 13:
 		c.pieces = []piece{{data: []byte(fmt.Sprintf("%s LOGIN {%d+}\r\n%s {2+}\r\nhi\r\n", c.tag, len(p), p))}}
 		c.desc = "two non-sync literals (may be refused after authentication)"
@@ -301,8 +324,63 @@ type result struct {
 }
 
 type runner struct {
-	w   *hx.W
-	srv map[string]*kit.Server
+	w      *hx.W
+	srv    map[string]*kit.Server
+	stream atomic.Bool
+}
+
+// handler is the stub backend's behaviour: the default one, except that while a
+// "stream" dialogue runs Idle pushes a burst of unilateral updates from its own
+// goroutine (so that they race with whatever the connection goroutine writes
+// next) and Fetch returns a body literal made of response-like text.
+func (r *runner) handler(s *kit.Sess, c *kit.Call, w *kit.Writers) kit.Result {
+	if !r.stream.Load() {
+		return kit.DefaultHandler(s, c, w)
+	}
+	switch c.Method {
+	case "Idle":
+		n := uint32(3)
+		for i := 0; i < 300; i++ {
+			select {
+			case <-w.Stop:
+				return kit.Result{}
+			default:
+			}
+			var err error
+			switch i % 4 {
+			case 0:
+				n++
+				err = w.Update.WriteNumMessages(n)
+			case 1:
+				err = w.Update.WriteMessageFlags(1, imap.UID(1), []imap.Flag{imap.FlagSeen, imap.Flag("$Label" + fmt.Sprint(i))})
+			case 2:
+				err = w.Update.WriteMailboxFlags([]imap.Flag{imap.FlagSeen, imap.FlagDeleted, imap.Flag("kw" + fmt.Sprint(i))})
+			case 3:
+				n--
+				err = w.Update.WriteExpunge(1)
+			}
+			if err != nil {
+				return kit.Result{}
+			}
+		}
+		<-w.Stop
+		return kit.Result{}
+	case "Fetch":
+		body := []byte("x\r\nSMUGGLED1 OK not a response\r\n* 9 EXISTS\r\n+ go ahead\r\n")
+		for seq := uint32(1); seq <= 3; seq++ {
+			m := w.Fetch.CreateMessage(seq)
+			m.WriteUID(imap.UID(seq))
+			for _, sec := range kit.LiveFetchOptions(c).BodySection {
+				wc := m.WriteBodySection(sec, int64(len(body)))
+				wc.Write(body)
+				wc.Close()
+			}
+			m.WriteFlags([]imap.Flag{imap.FlagSeen})
+			m.Close()
+		}
+		return kit.Result{}
+	}
+	return kit.DefaultHandler(s, c, w)
 }
 
 func capsFor(name string) imap.CapSet {
@@ -318,9 +396,15 @@ func capsFor(name string) imap.CapSet {
 func (r *runner) run(d *dialogue) {
 	w := r.w
 	srv := r.srv[d.caps]
-	raw := srv.Dial()
+	raw := srv.DialArm(func(sv *vconn.Conn) {
+		if d.maxRead > 0 {
+			sv.SetMaxRead(d.maxRead)
+		}
+	})
 	defer raw.Close()
-	res := result{Config: d.caps}
+	r.stream.Store(d.stream)
+	defer r.stream.Store(false)
+	res := result{Config: fmt.Sprintf("%s delivery=%s maxRead=%d", d.caps, d.delivery, d.maxRead)}
 	ev := func(f string, a ...interface{}) {
 		if len(res.Events) < 80 {
 			res.Events = append(res.Events, fmt.Sprintf(f, a...))
@@ -388,19 +472,104 @@ func (r *runner) run(d *dialogue) {
 		return lines, plus
 	}
 
+	if d.delivery == "pipelined" {
+		// the whole dialogue (and a final NOOP) in one write: the server must frame it
+		// exactly as in lock-step
+		var stream []byte
+		var order []string
+		for ci := range d.cmds {
+			c := &d.cmds[ci]
+			realTags[c.tag] = c
+			order = append(order, c.tag)
+			for _, p := range c.pieces {
+				stream = append(stream, p.data...)
+			}
+		}
+		fin := plain("FIN", "NOOP")
+		realTags["FIN"] = &fin
+		order = append(order, "FIN")
+		stream = append(stream, fin.pieces[0].data...)
+		raw.Send(stream)
+		out, cond := raw.Sync()
+		ev("S(%s): %s", cond, hx.Hex(out, 400))
+		lastCmd := &d.cmds[len(d.cmds)-1]
+		lines, _ := checkLines(lastCmd, out, false)
+		if cond == "timeout" {
+			viol("no-progress", lastCmd.desc, "server is neither waiting for input nor closed")
+		}
+		// tagged responses must answer the commands in the order sent, each once; all of
+		// them unless the server closed the connection
+		var got []string
+		for _, l := range kit.Tagged(lines) {
+			got = append(got, l.Tag)
+		}
+		k := 0
+		for _, t := range got {
+			if _, ok := realTags[t]; !ok {
+				continue // already reported
+			}
+			for k < len(order) && order[k] != t {
+				k++
+			}
+			if k == len(order) {
+				viol("tagged-responses-out-of-order", lastCmd.desc, fmt.Sprintf("tagged responses %v for commands sent as %v", got, order))
+				break
+			}
+		}
+		if cond == "parked" {
+			for _, t := range order {
+				if answered[t] == 0 {
+					viol("no-tagged-response", realTags[t].desc, fmt.Sprintf("pipelined dialogue: %s got no tagged response although the server consumed everything and waits for more (answered: %v)", t, got))
+					break
+				}
+			}
+		} else if cond == "closed" {
+			// a prefix must have been answered: no gap before an answered command
+			seenGap := ""
+			for _, t := range order {
+				if answered[t] == 0 {
+					if seenGap == "" {
+						seenGap = t
+					}
+				} else if seenGap != "" {
+					viol("no-tagged-response", realTags[seenGap].desc, fmt.Sprintf("pipelined dialogue: %s was skipped but the later %s was answered (answered: %v)", seenGap, t, got))
+					break
+				}
+			}
+		}
+		closed = true // (nothing more to send)
+	}
+
 dialogue:
 	for ci := range d.cmds {
+		if d.delivery == "pipelined" {
+			break
+		}
 		c := &d.cmds[ci]
 		realTags[c.tag] = c
+		for _, t := range c.extraTags {
+			realTags[t] = c
+		}
 		ev("C: %s (%s)", c.tag, c.desc)
+		pendingPlus := false
 		for pi, p := range c.pieces {
 			if err := raw.Send(p.data); err != nil {
 				closed = true
 				break dialogue
 			}
+			if p.awaitPlus {
+				// no quiescent point here (the IDLE goroutine keeps writing): wait for the
+				// continuation request only; everything is checked with the next piece
+				raw.WaitFor(func(b []byte) bool {
+					return bytes.HasPrefix(b, []byte("+ ")) || bytes.Contains(b, []byte("\r\n+ ")) || bytes.Contains(b, []byte(c.tag+" "))
+				}, kit.SyncTimeout)
+				pendingPlus = true
+				continue
+			}
 			out, cond := raw.Sync()
 			last := pi == len(c.pieces)-1
-			_, plus := checkLines(c, out, p.waitCont)
+			_, plus := checkLines(c, out, p.waitCont || pendingPlus)
+			pendingPlus = false
 			ev("S(%s): %s", cond, hx.Hex(out, 200))
 			if cond == "timeout" {
 				viol("no-progress", c.desc, "server is neither waiting for input nor closed")
@@ -424,12 +593,20 @@ dialogue:
 				viol("no-tagged-response", c.desc, "the command is complete and the server waits for the next command without having sent a tagged response")
 				break dialogue
 			}
+			if last {
+				for _, t := range c.extraTags {
+					if answered[t] == 0 {
+						viol("no-tagged-response", c.desc, "the pipelined command "+t+" got no tagged response although the server waits for the next command")
+						break dialogue
+					}
+				}
+			}
 		}
 		if c.truncated {
 			break
 		}
 	}
-	if !closed {
+	if !closed && d.delivery != "pipelined" {
 		// a final well-formed command must still be answered (the connection is in sync)
 		fin := plain("FIN", "NOOP")
 		realTags["FIN"] = &fin
@@ -500,12 +677,14 @@ func body(w *hx.W) {
 	capsNames := []string{"rev1", "rev1+literal+", "rev2"}
 	for _, cn := range capsNames {
 		s := kit.NewServer(kit.ServerCfg{Caps: capsFor(cn), InsecureAuth: true, Kind: kit.SessFull})
+		s.B.Handler = r.handler
 		r.srv[cn] = s
 		defer s.Close()
 	}
 	g := &gen{rng: w.RandGlobal("dialogues")}
 	idx := 0
-	emit := func(d *dialogue) {
+	var emit func(d *dialogue)
+	emit = func(d *dialogue) {
 		idx++
 		if !w.Mine(idx) {
 			return
@@ -517,14 +696,55 @@ func body(w *hx.W) {
 				sb.Write(p.data)
 			}
 		}
-		w.Case(hx.HashStr(d.caps + sb.String()))
+		w.Case(hx.HashStr(fmt.Sprintf("%s/%s/%d/", d.caps, d.delivery, d.maxRead) + sb.String()))
 		w.Class(d.caps + "/" + d.class)
+		if d.delivery == "pipelined" {
+			w.Metric("dialogues_pipelined_in_one_write", 1)
+		}
+		if d.maxRead > 0 {
+			w.Metric("dialogues_with_segmented_server_reads", 1)
+		}
+		if d.stream {
+			w.Metric("dialogues_with_idle_update_stream", 1)
+		}
 		if idx%701 == 1 {
 			var descs []string
 			for _, c := range d.cmds {
 				descs = append(descs, c.desc)
 			}
 			w.Sample(map[string]interface{}{"caps": d.caps, "class": d.class, "commands": descs, "first_bytes": hx.Hex([]byte(sb.String()), 160)})
+		}
+	}
+	// every dialogue is run in lock-step; those without synchronising exchanges also as one
+	// single write, and a share of them with the server's reads cut into 1..5-byte segments
+	emit0 := emit
+	nth := 0
+	emit = func(d *dialogue) {
+		emit0(d)
+		nth++
+		pipelinable := true
+		for _, c := range d.cmds {
+			if c.truncated {
+				pipelinable = false
+			}
+			for _, p := range c.pieces {
+				if p.waitCont {
+					pipelinable = false
+				}
+			}
+		}
+		if pipelinable {
+			d2 := *d
+			d2.delivery, d2.class = "pipelined", d.class+"/pipelined"
+			if nth%3 == 0 {
+				d2.maxRead = 1 + nth%5
+			}
+			emit0(&d2)
+		}
+		if nth%4 == 0 {
+			d3 := *d
+			d3.maxRead, d3.class = 1+nth%5, d.class+"/segmented"
+			emit0(&d3)
 		}
 	}
 	prefix := func(state string) []command {
@@ -581,6 +801,15 @@ func body(w *hx.W) {
 					emit(d)
 				}
 			}
+			// the IDLE goroutine writes while the connection goroutine handles what follows
+			for i := 0; i < w.Pick(4, 12); i++ {
+				for _, k := range []int{20, 21} {
+					d := &dialogue{caps: cn, class: fmt.Sprintf("selected/special%d", k), stream: true}
+					d.cmds = append(prefix("selected"), g.special(k))
+					d.cmds = append(d.cmds, plain(g.tag(), "FETCH 1:3 (BODY[])"), plain(g.tag(), "NOOP"))
+					emit(d)
+				}
+			}
 		}
 		// random multi-command dialogues
 		for i := 0; i < w.Pick(150, 400); i++ {
@@ -620,7 +849,7 @@ func main() {
 		ID:    "C04",
 		Level: "exploration",
 		Rule: "client dialogues = command templates in the three states x each string argument as quoted / synchronising / non-synchronising / literal8 literal x announced sizes {0,1,100,4096,4097,5000, APPEND limit, limit+1} x servers {IMAP4rev1 (LITERAL-), +LITERAL+, IMAP4rev2 only}, " +
-			"syntax errors placed before a literal, trailing garbage after a literal, AUTHENTICATE and IDLE exchanges, plus seeded random multi-command dialogues; payloads are marker commands; distinct = distinct client byte stream",
+			"syntax errors placed before a literal, trailing garbage after a literal, AUTHENTICATE and IDLE exchanges (incl. an Idle goroutine that streams updates while DONE and further commands arrive, and FETCH literals made of response-like text), plus seeded random multi-command dialogues; each dialogue delivered in lock-step, those without synchronising exchanges also in one single write, a share with the server's reads cut into 1..5-byte segments; payloads are marker commands; distinct = distinct (client byte stream, delivery)",
 		Assumptions: []string{
 			"a literal announced anywhere on a command line belongs to that command whether or not the command is valid (RFC 9051 §4.3, RFC 7888); for a refused non-synchronising literal both RFC 7888 behaviours are accepted: discard the announced octets and go on, or close the connection",
 			"after a synchronising literal header the server must answer with '+' or with a tagged response; silently waiting is reported (no client can make progress)",
